@@ -73,6 +73,77 @@ pub fn repeat_check() -> bool {
     REPEAT_CHECK.load(std::sync::atomic::Ordering::Relaxed)
 }
 
+/// An iterator driven through the provided `Iterator` methods must behave like the sequence its `next()` yields.
+/// Quadratic parts are bounded to the first / last 48 positions.
+pub fn iter_conformance<I: Iterator, X: PartialEq + std::fmt::Debug>(name: &str, mk: &dyn Fn() -> I, key: &dyn Fn(&I::Item) -> X) -> Option<String> {
+    let reference: Vec<X> = {
+        let mut it = mk();
+        let mut v = vec![];
+        while let Some(x) = it.next() {
+            v.push(key(&x));
+            if v.len() > 200_000 {
+                return Some(format!("{} does not end", name));
+            }
+        }
+        v
+    };
+    let n = reference.len();
+    let positions: Vec<usize> = (0..=n + 1).filter(|i| *i < 48 || *i + 48 > n).collect();
+    for &i in &positions {
+        let got = mk().nth(i).map(|x| key(&x));
+        if got.as_ref() != reference.get(i) {
+            return Some(format!("{}.nth({}) = {:?} but the {}-element sequence by next() has {:?} there", name, i, got, n, reference.get(i)));
+        }
+        let got: Vec<X> = mk().skip(i).map(|x| key(&x)).collect();
+        if got[..] != reference[i.min(n)..] {
+            return Some(format!("{}.skip({}) yields {} elements, next() yields {} after that position", name, i, got.len(), n - i.min(n)));
+        }
+    }
+    // nth after some next() calls
+    for k in 0..=n.min(3) {
+        for j in 0..=3usize {
+            let mut it = mk();
+            for _ in 0..k {
+                it.next();
+            }
+            let got = it.nth(j).map(|x| key(&x));
+            if got.as_ref() != reference.get(k + j) {
+                return Some(format!("{}: {} x next() then nth({}) = {:?}, expected {:?}", name, k, j, got, reference.get(k + j)));
+            }
+            let rest: Vec<X> = it.map(|x| key(&x)).collect();
+            if rest[..] != reference[(k + j + 1).min(n)..] {
+                return Some(format!("{}: after {} x next() and nth({}) the rest has {} elements, expected {}", name, k, j, rest.len(), n - (k + j + 1).min(n)));
+            }
+        }
+    }
+    for step in 1..=n.clamp(1, 5) {
+        let got: Vec<X> = mk().step_by(step).map(|x| key(&x)).collect();
+        let want: Vec<&X> = reference.iter().step_by(step).collect();
+        if got.len() != want.len() || got.iter().zip(want.iter()).any(|(a, b)| a != *b) {
+            return Some(format!("{}.step_by({}) yields {:?}, expected {:?}", name, step, got.iter().take(12).collect::<Vec<_>>(), want.iter().take(12).collect::<Vec<_>>()));
+        }
+    }
+    if mk().count() != n {
+        return Some(format!("{}.count() = {} but next() yields {}", name, mk().count(), n));
+    }
+    if mk().last().map(|x| key(&x)).as_ref() != reference.last() {
+        return Some(format!("{}.last() differs from the last element yielded by next()", name));
+    }
+    let mut it = mk();
+    let mut remaining = n;
+    loop {
+        let (lo, hi) = it.size_hint();
+        if lo > remaining || hi.map_or(false, |h| h < remaining) {
+            return Some(format!("{}.size_hint() = ({}, {:?}) with {} elements still to come", name, lo, hi, remaining));
+        }
+        if it.next().is_none() {
+            break;
+        }
+        remaining -= 1;
+    }
+    None
+}
+
 /// orders in which the builder options (0 min/max, 1 target, 2 transpose, 3 for_each/filter) are applied
 /// (options that take no closure are idempotent: the last two orders apply them twice)
 pub const OPT_ORDERS: [&[u8]; 6] = [&[0, 1, 2, 3], &[3, 2, 1, 0], &[2, 3, 0, 1], &[1, 3, 0, 2], &[2, 0, 1, 3, 2], &[1, 2, 0, 2, 3, 0, 1, 2]];
@@ -123,6 +194,8 @@ pub trait Flavour: 'static {
     /// the same loop written with std adapters: map + take_while + collect into a Vec and a HashSet-like
     /// consumer (both ask the iterator for `size_hint` while the loop is live)
     fn iterate_adapters(n: &Self::Node, kind: IterKind, f: &mut dyn FnMut(&Self::Edge) -> bool);
+    /// the node's edge iterators against `iter_conformance`
+    fn iter_adapters_check(n: &Self::Node) -> Option<String>;
     fn out_degree(n: &Self::Node) -> usize; // undirected: degree()
     fn in_degree(n: &Self::Node) -> usize; // undirected: 0
     fn is_root(n: &Self::Node) -> bool; // undirected: unsupported (false)
@@ -512,6 +585,9 @@ pub trait PathObj<F: Flavour + ?Sized> {
     fn first_node(&self) -> Option<F::Node>;
     fn last_node(&self) -> Option<F::Node>;
     fn index(&self, i: usize) -> F::Edge;
+    /// the path's iterators driven through the provided Iterator methods (nth, skip, step_by, last, count,
+    /// size_hint) against the sequence obtained by next(): a description of the first disagreement
+    fn adapters(&self) -> Option<String>;
 }
 pub type PathB<F> = Box<dyn PathObj<F>>;
 
@@ -527,8 +603,10 @@ pub struct PathW<P, F: Flavour + ?Sized> {
     first_node: fn(&P) -> Option<F::Node>,
     last_node: fn(&P) -> Option<F::Node>,
     index: fn(&P, usize) -> F::Edge,
+    adapters: fn(&P) -> Option<String>,
 }
 impl<P, F: Flavour + ?Sized> PathObj<F> for PathW<P, F> {
+    fn adapters(&self) -> Option<String> { (self.adapters)(&self.p) }
     fn len(&self) -> usize { (self.len)(&self.p) }
     fn edges(&self) -> Vec<F::Edge> { (self.edges)(&self.p) }
     fn iter_edges(&self) -> Vec<F::Edge> { (self.iter_edges)(&self.p) }
@@ -553,8 +631,9 @@ pub fn mk_path<P: 'static, F: Flavour + ?Sized>(
     first_node: fn(&P) -> Option<F::Node>,
     last_node: fn(&P) -> Option<F::Node>,
     index: fn(&P, usize) -> F::Edge,
+    adapters: fn(&P) -> Option<String>,
 ) -> PathB<F> {
-    Box::new(PathW::<P, F> { p, len, edges, iter_edges, nodes, iter_nodes, first_edge, last_edge, first_node, last_node, index })
+    Box::new(PathW::<P, F> { p, len, edges, iter_edges, nodes, iter_nodes, first_edge, last_edge, first_node, last_node, index, adapters })
 }
 macro_rules! wrap_path {
     ($opt:expr) => {
@@ -571,6 +650,10 @@ macro_rules! wrap_path {
                 |p| p.first_node().cloned(),
                 |p| p.last_node().cloned(),
                 |p, i| p[i].clone(),
+                |p| {
+                    iter_conformance("iter_nodes()", &|| p.iter_nodes(), &|n| *n.key())
+                        .or_else(|| iter_conformance("iter_edges()", &|| p.iter_edges(), &|e| (*e.0.key(), *e.1.key(), e.2)))
+                },
             )
         })
     };
@@ -600,6 +683,11 @@ macro_rules! directed_flavour {
                     IterKind::In => { let mut it = n.iter_in(); check_hint(it.size_hint()); while let Some(e) = it.next() { if !f(&e) { break; } check_hint(it.size_hint()); } }
                     IterKind::IntoIter => { for e in n { if !f(&e) { break; } } }
                 }
+            }
+            fn iter_adapters_check(n: &Self::Node) -> Option<String> {
+                iter_conformance("iter_out()", &|| n.iter_out(), &|e| (*e.0.key(), *e.1.key(), e.2))
+                    .or_else(|| iter_conformance("iter_in()", &|| n.iter_in(), &|e| (*e.0.key(), *e.1.key(), e.2)))
+                    .or_else(|| iter_conformance("(&node).into_iter()", &|| n.into_iter(), &|e| (*e.0.key(), *e.1.key(), e.2)))
             }
             fn iterate_adapters(n: &Self::Node, kind: IterKind, f: &mut dyn FnMut(&Self::Edge) -> bool) {
                 match kind {
@@ -674,6 +762,10 @@ macro_rules! undirected_flavour {
                     IterKind::In => {}
                     IterKind::IntoIter => { for e in n { if !f(&e) { break; } } }
                 }
+            }
+            fn iter_adapters_check(n: &Self::Node) -> Option<String> {
+                iter_conformance("iter()", &|| n.iter(), &|e| (*e.0.key(), *e.1.key(), e.2))
+                    .or_else(|| iter_conformance("(&node).into_iter()", &|| n.into_iter(), &|e| (*e.0.key(), *e.1.key(), e.2)))
             }
             fn iterate_adapters(n: &Self::Node, kind: IterKind, f: &mut dyn FnMut(&Self::Edge) -> bool) {
                 match kind {
